@@ -108,7 +108,7 @@ def reader_sequence(state, buf='packet', cls=None, recv='self'):
         return None
 
     callnodes = {}
-    for c in state.calls:
+    for c in getattr(state, 'calls', ()):      # adapters that carry only an event list have no call nodes
         callnodes.setdefault((c[0], tuple(c[1]), c[3]), c[4])
     for ev in _dedupe_pops(state.events, buf):
         kind = ev[0]
